@@ -31,7 +31,11 @@ Record hstep := HS {
   s_get : ig                      (* get after the transaction *)
 }.
 Record hcase := HC {
-  h_coll : bool; h_trans : bool;
+  h_coll : bool;
+  h_trans : N;                    (* 0 none; 1 store.IDTransformer (rid = prefix ++ id); 2 TransformFuncs hiding every id
+                                     that starts with '0' (RIDToID / IDToRID return "") and a nil Transform;
+                                     3 TransformFuncs(nil, nil, f): rid = id *)
+  h_store : N;                    (* 0 mockstore; 1 errors wrapping the sentinels; 2 Value() fails with another error *)
   h_def : option rvj;
   h_prefix : bytes;               (* with a transformer: rid = prefix ++ id (store.IDTransformer) *)
   h_id : bytes;
@@ -56,6 +60,7 @@ Definition rv_eqb (a b : rvj) : bool :=
   match a, b with
   | RM x, RM y => amapV_eqb x y
   | RC x, RC y => list_eqb jv_eqb x y
+  | RBad, RBad => true
   | _, _ => false
   end.
 Fixpoint chlookup {A} (k : bytes) (m : list (bytes * A)) : option A :=
@@ -80,7 +85,9 @@ Definition pev_eqb (a : bytes * event jv) (b : bytes * iev) : bool :=
 Definition ig_eqb (a b : ig) : bool :=
   match a, b with
   | IGMissing, IGMissing => true
+  | IGValue RBad, (IGErr | IGBad) => true   (* a value that cannot be marshalled / is no resource: error or garbage *)
   | IGValue x, IGValue y => rv_eqb x y
+  | IGErr, IGErr => true
   | _, _ => false
   end.
 Definition ig_of (g : get_result jv) : ig := match g with GMissing => IGMissing | GValue v => IGValue v end.
@@ -97,13 +104,23 @@ Fixpoint strip_prefix (p s : bytes) : bytes :=
   | x :: p', y :: s' => if x =? y then strip_prefix p' s' else []
   | _ :: _, [] => []
   end.
+Definition starts0 (b : bytes) : bool := match b with 48 :: _ => true | _ => false end.
 Definition cfg_of (c : hcase) : config jv :=
+  let tf := fun (_ : bytes) v => tlookup (ttab c) v in
   Cfg (if h_coll c then TCollection else TModel)
-      (if h_trans c then
-         Some (Tr (strip_prefix (h_prefix c)) (fun id _ => h_prefix c ++ id) (fun _ v => tlookup (ttab c) v))
-       else None)
+      (match h_trans c with
+       | 0 => None
+       | 1 => Some (Tr (strip_prefix (h_prefix c)) (fun id _ => h_prefix c ++ id) tf)
+       | 2 => Some (Tr (fun rid => let id := strip_prefix (h_prefix c) rid in if starts0 id then [] else id)
+                       (fun id _ => if starts0 id then [] else h_prefix c ++ id) tf)
+       | _ => Some (Tr (fun rid => rid) (fun id _ => id) tf)
+       end)
       (h_def c) (fun _ => true).
-Definition rid_of (c : hcase) : bytes := if h_trans c then h_prefix c ++ h_id c else h_id c.
+Definition rid_of (c : hcase) : bytes :=
+  match h_trans c with 1 | 2 => h_prefix c ++ h_id c | _ => h_id c end.
+Definition ig_of_e (g : get_result_e jv) : ig := match g with GE g' => ig_of g' | GError => IGErr end.
+Definition get_of (c : hcase) (cfg : config jv) (st : option rvj) : ig :=
+  ig_of_e (get_resource_e jv cfg (rid_of c) (fun _ => h_store c =? 2) (one_store (h_id c) st)).
 
 Definition op_of (s : hstep) : option (op jv) :=
   match s_op s, s_val s with
@@ -115,7 +132,7 @@ Definition op_of (s : hstep) : option (op jv) :=
 
 (* ---- correspondence: field codes 1 initial get, 2 write success, 3 events, 4 get after,
         5 the model says panic / out of fuel, 6 malformed case ---- *)
-Fixpoint check_steps (cfg : config jv) (id rid : bytes) (st : option rvj) (steps : list hstep) : list N :=
+Fixpoint check_steps (getf : option rvj -> ig) (cfg : config jv) (id : bytes) (st : option rvj) (steps : list hstep) : list N :=
   match steps with
   | [] => []
   | s :: r =>
@@ -126,16 +143,16 @@ Fixpoint check_steps (cfg : config jv) (id rid : bytes) (st : option rvj) (steps
       | (st', ok, HOk evs) =>
         (if Bool.eqb ok (s_ok s) then [] else [2]) ++
         (if list_eqb pev_eqb evs (s_evs s) then [] else [3]) ++
-        (if ig_eqb (ig_of (get_resource jv cfg rid (one_store id st'))) (s_get s) then [] else [4]) ++
-        check_steps cfg id rid st' r
+        (if ig_eqb (getf st') (s_get s) then [] else [4]) ++
+        check_steps getf cfg id st' r
       | (_, _, _) => [5]
       end
     end
   end.
 Definition check_case (c : hcase) : list N :=
   let cfg := cfg_of c in
-  (if ig_eqb (ig_of (get_resource jv cfg (rid_of c) (one_store (h_id c) (h_init c)))) (h_get0 c) then [] else [1]) ++
-  check_steps cfg (h_id c) (rid_of c) (h_init c) (h_steps c).
+  (if ig_eqb (get_of c cfg (h_init c)) (h_get0 c) then [] else [1]) ++
+  check_steps (get_of c cfg) cfg (h_id c) (h_init c) (h_steps c).
 
 (* ---- property C10 on the implementation's outputs.
    codes: 1 an add/remove index is out of range when applied
@@ -201,7 +218,13 @@ Fixpoint viol_steps (rid : bytes) (prev : ig) (c : option (cstate jv)) (steps : 
     | _, w => (match s_get s, prev with IGErr, _ | _, IGErr => 7 | _, _ => 6 end) :: viol_steps rid (s_get s) w r
     end
   end.
+(* outside the property's domain: a store whose reads fail (no get can be compared), and histories that
+   store a value which is no resource (RBad); those cases only carry the correspondence obligation *)
+Definition is_bad (o : option rvj) : bool := match o with Some RBad => true | _ => false end.
+Definition out_of_domain (c : hcase) : bool :=
+  (h_store c =? 2) || is_bad (h_init c) || existsb (fun s => is_bad (s_val s)) (h_steps c).
 Definition viol_case (c : hcase) : list N :=
+  if out_of_domain c then [] else
   viol_steps (rid_of c) (h_get0 c) (cl_of (h_get0 c)) (h_steps c).
 
 (* ---- size-scaling family (oracle only).
@@ -225,9 +248,35 @@ Definition viol_big (c : bcase) : list N :=
   end ++
   (if list_eqb N.eqb (b_old c) (b_new c) && negb (is_nil (b_script c)) then [4] else []).
 
-Inductive ccase := CH (h : hcase) | CB (b : bcase).
-Definition check_ccase (c : ccase) : list N := match c with CH h => check_case h | CB _ => [] end.
-Definition viol_ccase (c : ccase) : list N := match c with CH h => viol_case h | CB b => viol_big b end.
+(* ---- registration cases (correspondence only): s.Handle(pattern, type option, store.Handler) on a fresh
+   service, the panic (if any) recovered and classified by its message, then Serve and one get.
+   field codes 7 registration outcome, 8 get after registration *)
+Record rcase := RG {
+  r_store : bool;      (* Store set *)
+  r_def : N;           (* 0 no Default, 1 unmarshalable, 2 object, 3 array, 4 other JSON (string, number, null) *)
+  r_typ : N;           (* 0 unset, 1 res.Model, 2 res.Collection, 3 another value *)
+  r_panic : N;         (* observed: 0 none, 1 "no Store is set", 2 "error marshaling default handler value", 3 default of
+                          the wrong JSON kind, 4 "no Type is set", 5 "Type must be set to ...", 9 anything else *)
+  r_get : N            (* observed: 0 the stored value, 1 system.notFound, 2 system.internalError, 9 anything else *)
+}.
+Definition reg_def_of (n : N) : reg_default :=
+  match n with 0 => DNone | 1 => DUnmarshalable | 2 => DObject | 3 => DArray | _ => DOtherJson end.
+Definition reg_typ_of (n : N) : reg_type :=
+  match n with 0 => RTUnset | 1 => RTModel | 2 => RTCollection | _ => RTOther end.
+Definition reg_code (o : reg_outcome) : N :=
+  match o with
+  | RegOk => 0 | RegPanicNoStore => 1 | RegPanicDefaultMarshal => 2 | RegPanicDefaultKind => 3
+  | RegPanicTypeUnset => 4 | RegPanicTypeInvalid => 5
+  end.
+Definition reg_get_code (g : reg_get) : N := match g with RGServed => 0 | RGNoHandler => 1 | RGInvalidType => 2 end.
+Definition check_reg (c : rcase) : list N :=
+  let o := register (r_store c) (reg_def_of (r_def c)) (reg_typ_of (r_typ c)) in
+  (if reg_code o =? r_panic c then [] else [7]) ++
+  (if reg_get_code (get_after_register o) =? r_get c then [] else [8]).
+
+Inductive ccase := CH (h : hcase) | CB (b : bcase) | CR (r : rcase).
+Definition check_ccase (c : ccase) : list N := match c with CH h => check_case h | CB _ => [] | CR r => check_reg r end.
+Definition viol_ccase (c : ccase) : list N := match c with CH h => viol_case h | CB b => viol_big b | CR _ => [] end.
 
 Fixpoint run_idx {A} (f : A -> list N) (i : N) (cs : list A) : list (N * N) :=
   match cs with
